@@ -45,6 +45,7 @@ type pipelineStateMachine struct {
 	completedCallbackFn func(err error)          // pipeline execute completed will invoke
 	mutex               sync.Mutex
 	completed           atomic.Bool
+	firstErr            error // first error reported by any stage, guarded by mutex
 
 	tracker *trackerpkg.StageTracker
 }
@@ -93,6 +94,10 @@ func (sm *pipelineStateMachine) executeStage(parentStageID, stageID string, stag
 // completeStage tracks stage complete execution state.
 func (sm *pipelineStateMachine) completeStage(stageID string, err error) {
 	sm.mutex.Lock()
+	if err != nil && sm.firstErr == nil {
+		// keep the failure of any stage: the stage that finishes last may have succeeded
+		sm.firstErr = err
+	}
 	if s, ok := sm.stages[stageID]; ok {
 		var errMsg string
 		if err != nil {
@@ -115,8 +120,11 @@ func (sm *pipelineStateMachine) completeStage(stageID string, err error) {
 	sm.mutex.Unlock()
 
 	if sm.pending.Dec() == 0 {
-		// check if all stages execute completed
-		sm.complete(err)
+		// all stages execute completed, every stage recorded its failure before it decremented pending
+		sm.mutex.Lock()
+		pipelineErr := sm.firstErr
+		sm.mutex.Unlock()
+		sm.complete(pipelineErr)
 	}
 }
 
